@@ -632,14 +632,23 @@ func firstWord(s string) string {
 }
 
 func opsString(ops []rOp) string {
-	s := ""
+	var b strings.Builder
 	for i, o := range ops {
 		if i > 0 {
-			s += " "
+			b.WriteByte(' ')
 		}
-		s += o.String()
+		if i == 400 && len(ops) > 800 {
+			// very long histories are built by a rule their stage states; the replay re-generates them
+			fmt.Fprintf(&b, "... (%d operations in all) ...", len(ops))
+			for _, o := range ops[len(ops)-20:] {
+				b.WriteByte(' ')
+				b.WriteString(o.String())
+			}
+			break
+		}
+		b.WriteString(o.String())
 	}
-	return s
+	return b.String()
 }
 
 // randomReaderOps generates a random history.
